@@ -142,8 +142,8 @@ CHECKS = {
          "Spec: 1.8k (quick) / 30k+ (thorough) modulated buffers. Code: 500 (thorough 12 000) random buffers of 0-3 frames incl. bad-parity "
          "decoys, amplitudes 0.3-1.4, noise peaks from 0 to -10 dB of the weakest pulse.",
          "'10 dB above the noise floor' read as: every noise sample <= amp/3.162; uniform integer noise (x1000), not Gaussian/Rayleigh; "
-         "buffers contain a fully quiet 100-us window; no SDR hardware (object.__new__(RtlReader)). Where the noise also reaches 0.2 "
-         "absolute (class ten_db_abs) failures are the open finding C19-false-preamble-in-strong-noise (KNOWN-FINDING, narrow signature).",
+         "buffers contain a fully quiet 100-us window; no SDR hardware (object.__new__(RtlReader)). The finding C19-false-preamble-in-strong-noise (noise reaching 0.2 "
+         "absolute) is repaired in /repo 395dcb0.",
          "DESIGN.md section 5 C19"),
  "C20": ("relational monitoring: the spec states the relations of the property as TLA+ predicates over integer-projected observations "
          "(ISA within 0.1 % of an mpmath-generated ISO 2533 table, continuity at 11 km, conversion pairs mutually inverse, strict "
